@@ -737,3 +737,22 @@ Qed.
 
 Lemma cget_nil k : cget [] k = 0.
 Proof. reflexivity. Qed.
+
+Lemma cincr_not_nil d k : cincr d k <> [].
+Proof. destruct d as [|[k' v] d]; cbn; [discriminate|]. destruct (ckey_eqb k k'); discriminate. Qed.
+
+Lemma In_cget_NoDup d k v : NoDup (ckeys d) -> In (k, v) d -> cget d k = v.
+Proof.
+  induction d as [|[k' v'] d IH]; cbn; [tauto|].
+  intros ND [H|H].
+  - inversion H. subst. rewrite ckey_eqb_refl. reflexivity.
+  - inversion ND as [|? ? Hn ND']. subst. destruct (ckey_eqb k k') eqn:E.
+    + apply ckey_eqb_eq in E. subst. exfalso. apply Hn. unfold ckeys. apply in_map_iff. exists (k', v). auto.
+    + apply IH; assumption.
+Qed.
+
+Lemma dset_not_nil {V : Type} (d : dict V) k v : dset d k v <> [].
+Proof. destruct d as [|[k' v'] d]; cbn; [discriminate|]. destruct (str_eqb k k'); discriminate. Qed.
+
+Lemma dupd_not_nil {V : Type} (d : dict V) k dflt f : dupd d k dflt f <> [].
+Proof. rewrite dupd_dset. apply dset_not_nil. Qed.
